@@ -72,6 +72,8 @@ enum ErrorKind {
     ResultingBytecodeIsTooLarge(usize),
     #[error("too many targets in assignment ({0})")]
     TooManyAssignmentTargets(usize),
+    #[error("too many patterns in match arm ({0})")]
+    TooManyMatchPatterns(usize),
     #[error(
         "too many container entries, {0} is greater than the maximum of {max}",
         max = u32::MAX
@@ -4076,6 +4078,11 @@ impl Compiler {
     ) -> Result<()> {
         use Op::*;
 
+        // Elements of the matched value are accessed with signed 8-bit indices
+        if arm_patterns.len() > i8::MAX as usize {
+            return self.error(ErrorKind::TooManyMatchPatterns(arm_patterns.len()));
+        }
+
         let mut index_from_end = false;
 
         for (pattern_index, pattern) in arm_patterns.iter().enumerate() {
@@ -4381,6 +4388,10 @@ impl Compiler {
         ctx: CompileNodeContext,
     ) -> Result<()> {
         use Op::*;
+
+        if nested_patterns.len() > i8::MAX as usize {
+            return self.error(ErrorKind::TooManyMatchPatterns(nested_patterns.len()));
+        }
 
         let value_register = if let Some(pattern_index) = pattern_index {
             // Place the nested container into a register
